@@ -29,9 +29,14 @@ type c20Case struct {
 }
 
 func c20Build(c c20Case) (back []uint64, xs []uint64) {
-	back = make([]uint64, c.L+16)
+	// 16 words of patterned tail, then 64 words that are >= every k: a kernel that runs away past
+	// the slice stops inside this allocation (and returns a wrong index) instead of faulting
+	back = make([]uint64, c.L+16+64)
 	for i := range back {
 		back[i] = c.Fill // value slots; must never influence the result
+	}
+	for i := c.L + 16; i < len(back); i++ {
+		back[i] = ^uint64(0)
 	}
 	lo, hi := c.K-1, c.K // lo only used when K > 0
 	n := c.L / 2
@@ -106,6 +111,9 @@ func c20(tier string, r *ev.Run, replay string) {
 						if want == -1 {
 							want = got
 						}
+						if r.NumViolations() > 200 {
+							goto done // enough evidence; do not keep running a broken kernel
+						}
 						if got != ref || got != want {
 							key := "C20/other"
 							if int(got) > L/2 {
@@ -124,6 +132,7 @@ func c20(tier string, r *ev.Run, replay string) {
 			}
 		}
 	}
+done:
 	// the empty input in its three shapes: nil, empty with a readable base (covered above), and
 	// empty with a base that must not be touched (first byte of an inaccessible page)
 	guard := c20GuardPage()
